@@ -65,7 +65,7 @@ def r1_lock_region(r, facts):
     regs = fam.guard_regions(f, 'submissions_lock')
     if not r.require(len(regs) == 1, 'Submissions::add', 'expected exactly one lock(&shared.submissions_lock) in add, found %d' % len(regs), f.where()):
         return
-    live = regs[0]['live']
+    live = regs[0]['held']
     eb = ExprBuilder(f)
     sites = []
     for loc, t in f.calls():
@@ -85,7 +85,7 @@ def r1_lock_region(r, facts):
         r.require(need in kinds, 'Submissions::add', 'site %r not found in add (unrecognised form)' % need, f.where())
     for k, loc in sites:
         r.inst('%s@add' % k, f.where(loc), 'inside submissions_lock guard' if loc in live else 'OUTSIDE guard')
-        r.require(loc in live, 'Submissions::add/%s' % k, '%s happens outside the submissions_lock guard region' % k, f.where(loc))
+        r.require(loc in live, 'Submissions::add/%s' % k, '%s can run without the submissions_lock guard held (outside the guard region, or the lock is not taken on every path to it)' % k, f.where(loc))
     # the lock must be released only after the tail store on every path from it
     r.floor(3)
 
@@ -96,7 +96,7 @@ def r2_fullness_guard(r, facts):
     if len(regs) != 1:
         r.bad('Submissions::add', 'lock region not found')
         return
-    live = regs[0]['live']
+    live = regs[0]['held']
     eb = ExprBuilder(f)
     fills = find_fill_call(f)
     if not r.require(len(fills) == 1, 'Submissions::add', 'expected one fill_submission call, found %d' % len(fills), f.where()):
